@@ -81,7 +81,7 @@ def replay_enc_history(cls, pin, pan, key, refused, direction):
     for d in (['encrypt', 'decrypt'] if direction == 'both' else [direction]):
         try:
             getattr(C, d)(key, bytes.fromhex(refused))
-        except ValueError:
+        except Exception:          # what the refused call itself does is not part of the claim
             pass
     res = replay_enc(cls, pin, pan, key)
     if res[0]:
